@@ -25,6 +25,7 @@ struct ExecOp
     bool verbose = false, skip_ws = true, skip_nl = true;
     std::string input;          // final bytes (after all input faults)
     int op_index = 0;           // index inside the task (for simrt::begin_op)
+    bool hash_image = false;    // FNV of the parser object's bytes before/after the call (C15)
 };
 
 struct Outcome
@@ -53,6 +54,15 @@ struct RealTable
 };
 typedef void (*TableFn)(RealTable&, int term_count, int nterm_count);
 
+// the parser's own generated lexer automaton
+struct RealDfa
+{
+    int nstates = 0;
+    std::vector<std::vector<int>> next;    // [state][byte] -> state or -1
+    std::vector<int> recognized;           // [state] -> term or -1
+};
+typedef void (*DfaFn)(RealDfa&);
+
 struct FleetEntry
 {
     const char* key;        // e.g. "G1.node", "R1", "L1"
@@ -63,6 +73,7 @@ struct FleetEntry
     void (*make_heap)();    // constructs the heap instance (call on a big-stack thread)
     bool has_cvector_value_stack;
     TableFn dump_table;
+    DfaFn dump_dfa;
 };
 
 void register_fleet(const FleetEntry& e);
